@@ -185,6 +185,7 @@ def check(prop, tier, seed):
                 failures.append((tid, x))
     violations = []
     known_lines = []
+    known_obls = []
     exit_code = 0
     # ---- bounded stand-ins and run-time contract monitors (never counted as discharged)
     bounded = []
@@ -217,9 +218,11 @@ def check(prop, tier, seed):
                 w = {"found": False, "error": "no replayer registered for this task"}
         if is_known:
             f = is_known[0]
-            # a known finding suppresses only the recorded witness: the replayed failing input must be the recorded one
-            if w.get("found") and f.get("witness_key") and w.get("witness_key") == f["witness_key"]:
+            # a known finding suppresses only the recorded witness: the replayed failing input must be the recorded one,
+            # and the obligation must be discharged once the recorded region is excluded
+            if w.get("found") and f.get("witness_key") and w.get("witness_key") == f["witness_key"] and x.get("proved_outside_region"):
                 known_lines.append(f"KNOWN-FINDING: property={prop} {f['what']}")
+                known_obls.append({"obligation": x["name"], "discharged_outside_region": True, "region": f.get("region"), "witness": w.get("input")})
                 continue
         safe = hashlib.sha1(x["name"].encode()).hexdigest()[:10]
         path = os.path.join("replays", prop, f"{tid.replace('/', '_')}-{safe}.json")
@@ -245,8 +248,12 @@ def check(prop, tier, seed):
             exit_code = 3
     wall = round(time.time() - t_start, 2)
     level = pinfo["level"]
+    # an obligation carried as a known finding is not counted among the obligations claimed as proved: it is listed separately,
+    # discharged only outside the recorded failing region
+    n_obl -= len(known_obls)
     cov = {
         "obligations": n_obl, "discharged": n_dis,
+        "known_finding_obligations": known_obls,
         "checker_cmd": f"./check {prop} --tier {tier}",
         "trusted_base": TRUSTED_BASE,
         "backends": backends, "solver_time_s": round(solver_time, 2),
